@@ -55,12 +55,18 @@ func (a *aval) String() string {
 
 type ncOutcome struct {
 	entered, deletedProp, cleanedRequired bool
+	appendedOrder                         bool  // the name was appended to PropertyOrder (after being entered)
+	postEntryKnown                        bool  // the code after the entry was followed up to the append or the end of the iteration
+	ownerSet                              *aval // what the table of holders records for the name afterwards (nil: unchanged)
+	ownerDeleted                          bool
 }
 
 type ncInterp struct {
-	c       *Ctx
-	lookup  *ssa.Lookup
-	holder  *aval
+	c            *Ctx
+	lookup       *ssa.Lookup
+	holderAbsent bool
+	curFrame     *ncFrame
+	holder       *aval
 	dc      int64
 	tc      bool
 	mem     map[ssa.Value]*aval // allocs
@@ -172,6 +178,20 @@ func (in *ncInterp) eval1(fr *ncFrame, v ssa.Value, depth int) *aval {
 		return in.fail("unbound parameter " + x.Name())
 	case *ssa.Lookup:
 		if x == in.lookup {
+			if in.holderAbsent {
+				zero := &aval{fields: map[int]*aval{}}
+				for k, f := range in.holder.fields {
+					if f.k != nil && f.k.Kind() == constant.Bool {
+						zero.fields[k] = &aval{k: constant.MakeBool(false)}
+					} else {
+						zero.fields[k] = &aval{k: constant.MakeInt64(0)}
+					}
+				}
+				if x.CommaOk {
+					return &aval{fields: map[int]*aval{0: zero, 1: {k: constant.MakeBool(false)}}}
+				}
+				return zero
+			}
 			if x.CommaOk {
 				return &aval{fields: map[int]*aval{0: in.holder, 1: {k: constant.MakeBool(true)}}}
 			}
@@ -338,6 +358,10 @@ func (in *ncInterp) observe(i ssa.Instruction) {
 		if c.mentionsField(x.Map, "Schema.Properties", 4) {
 			in.out.entered = true
 		}
+		if in.lookup != nil && (x.Map == in.lookup.X || sharesSource(x.Map, in.lookup.X)) && in.curFrame != nil {
+			in.out.ownerSet = in.evalQuiet(in.curFrame, x.Value, 14)
+			in.out.ownerDeleted = false
+		}
 	case *ssa.Store:
 		if fa, ok := x.Addr.(*ssa.FieldAddr); ok && c.fieldName(fa.X.Type(), fa.Field) == "Schema.Required" {
 			if call, ok := x.Val.(*ssa.Call); ok && core.CalleeKey(&call.Call) == "builtin.append" {
@@ -345,9 +369,18 @@ func (in *ncInterp) observe(i ssa.Instruction) {
 			}
 			in.out.cleanedRequired = true
 		}
+		if fa, ok := x.Addr.(*ssa.FieldAddr); ok && c.fieldName(fa.X.Type(), fa.Field) == "Schema.PropertyOrder" {
+			if call, ok := x.Val.(*ssa.Call); ok && core.CalleeKey(&call.Call) == "builtin.append" && in.out.entered {
+				in.out.appendedOrder = true
+				in.out.postEntryKnown = true
+			}
+		}
 	case ssa.CallInstruction:
 		if core.CalleeKey(x.Common()) == "builtin.delete" && len(x.Common().Args) == 2 && c.mentionsField(x.Common().Args[0], "Schema.Properties", 4) {
 			in.out.deletedProp = true
+		}
+		if core.CalleeKey(x.Common()) == "builtin.delete" && len(x.Common().Args) == 2 && in.lookup != nil && (x.Common().Args[0] == in.lookup.X || sharesSource(x.Common().Args[0], in.lookup.X)) {
+			in.out.ownerDeleted, in.out.ownerSet = true, nil
 		}
 	}
 }
@@ -396,10 +429,8 @@ func (in *ncInterp) run(fn *ssa.Function, args []*aval, start *ssa.BasicBlock, f
 		}
 		var next *ssa.BasicBlock
 		for _, ins := range cur.Instrs[idx:] {
+			in.curFrame = fr
 			in.observe(ins)
-			if top && in.out.entered {
-				return nil
-			}
 			switch x := ins.(type) {
 			case *ssa.Store:
 				in.store(fr, x)
@@ -460,6 +491,9 @@ func (in *ncInterp) run(fn *ssa.Function, args []*aval, start *ssa.BasicBlock, f
 			case *ssa.If:
 				cv := in.eval(fr, x.Cond, 14)
 				if cv == nil || cv.k == nil || cv.k.Kind() != constant.Bool {
+					if top && in.out.entered && !in.out.postEntryKnown {
+						in.afterEntryByShape(cur)
+					}
 					return in.fail("branch condition at " + in.c.pos(x))
 				}
 				if constant.BoolVal(cv.k) {
@@ -479,6 +513,7 @@ func (in *ncInterp) run(fn *ssa.Function, args []*aval, start *ssa.BasicBlock, f
 		}
 		fr.prev, cur = cur, next
 		if top && in.topLoop[cur] {
+			in.out.postEntryKnown = true
 			return nil // next iteration of the field loop
 		}
 	}
@@ -570,6 +605,9 @@ func ruleNameConflictScenarios(c *Ctx, rule string, inferFn *ssa.Function, enter
 		in := &ncInterp{c: c, lookup: lk, dc: s.dc, tc: s.tc, mem: map[ssa.Value]*aval{}, topLoop: header,
 			holder: &aval{fields: map[int]*aval{depthIdx: {k: constant.MakeInt64(s.dp)}, tagIdx: {k: constant.MakeBool(s.tp)}}}}
 		in.run(at.Parent(), nil, at.Block(), 0)
+		if in.failed != "" && in.out.entered {
+			in.failed = "" // what follows the entry (option lookups ...) is outside the domain; what was seen until then stands
+		}
 		if in.failed != "" {
 			c.R.OK(rule, "forType:properties[name]:scenarios", c.pos(at), "the decision between two fields with one JSON name could not be evaluated over the depth/tag domain ("+in.failed+"): nothing concluded beyond the dependence on name and depth")
 			return
@@ -591,8 +629,37 @@ func ruleNameConflictScenarios(c *Ctx, rule string, inferFn *ssa.Function, enter
 			ok, why = false, "neither field is emitted by encoding/json (a tie), but the holder's property is kept"
 		case !want.entered && !want.deletedProp && got.deletedProp:
 			ok, why = false, "the holder wins, but its property is deleted"
+		case want.entered && got.postEntryKnown && !got.appendedOrder:
+			ok, why = false, "the newcomer replaces the holder but is not given its own place in PropertyOrder: the property keeps the position of the field that lost (or none), so the inferred order is not the order of the fields encoding/json emits"
 		}
 		c.R.Check(ok, rule, "forType:properties[name]:"+r.s.name, c.pos(at), "resolved as encoding/json resolves it", why+" (holder at depth "+fmt.Sprint(r.s.dp)+", newcomer at depth "+fmt.Sprint(r.s.dc)+")")
+	}
+	// a third field: after an undecided tie the name stays taken, so that a later field at the same depth or deeper
+	// is not entered either (encoding/json drops the name altogether)
+	for _, r := range results {
+		if !(r.s.dp == r.s.dc && r.s.tp == r.s.tc) {
+			continue
+		}
+		for _, third := range []struct {
+			name  string
+			depth int64
+		}{{"same-depth", r.s.dc}, {"deeper", r.s.dc + 1}} {
+			holder := &aval{fields: map[int]*aval{depthIdx: {k: constant.MakeInt64(r.s.dp)}, tagIdx: {k: constant.MakeBool(r.s.tp)}}}
+			absent := false
+			switch {
+			case r.out.ownerDeleted:
+				absent = true
+			case r.out.ownerSet != nil && r.out.ownerSet.fields != nil && r.out.ownerSet.fields[depthIdx] != nil && r.out.ownerSet.fields[tagIdx] != nil:
+				holder = r.out.ownerSet
+			}
+			in := &ncInterp{c: c, lookup: lk, dc: third.depth, tc: r.s.tc, mem: map[ssa.Value]*aval{}, topLoop: header, holder: holder, holderAbsent: absent}
+			in.run(at.Parent(), nil, at.Block(), 0)
+			if in.failed != "" && !in.out.entered {
+				continue
+			}
+			c.R.Check(!in.out.entered, rule, fmt.Sprintf("forType:properties[name]:after-tie/tagged=%v/third-%s", r.s.tp, third.name), c.pos(at), "after an undecided tie a third field with the name is not entered",
+				"after two fields tied for a JSON name (so that neither is a property) a third field with that name, not shallower than they are, becomes a property: the name is forgotten in the table of holders, but encoding/json drops it altogether")
+		}
 	}
 }
 
@@ -812,5 +879,57 @@ func ruleTagNameValidity(c *Ctx, rule string) {
 		}
 		c.R.Check(len(wrong) == 0, rule, construct, c.P.Pos(p.Pos()), fmt.Sprintf("gives encoding/json's answer on %d strings that separate its character classes", len(samples)),
 			fmt.Sprintf("the tag-name validity predicate disagrees with encoding/json's isValidTag (%s): for such a tag the inferred property name is not the name encoding/json uses", strings.Join(wrong, ", ")))
+	}
+}
+
+// afterEntryByShape: the field's schema has been entered and a condition outside the domain was met (an option
+// lookup). Whether the name is still appended to PropertyOrder in this iteration is then read off the shape of
+// the code: on every path from here to the next iteration, or on none.
+func (in *ncInterp) afterEntryByShape(from *ssa.BasicBlock) {
+	isAppend := map[*ssa.BasicBlock]bool{}
+	for _, b := range from.Parent().Blocks {
+		for _, ins := range b.Instrs {
+			st, ok := ins.(*ssa.Store)
+			if !ok {
+				continue
+			}
+			if fa, ok := st.Addr.(*ssa.FieldAddr); ok && in.c.fieldName(fa.X.Type(), fa.Field) == "Schema.PropertyOrder" {
+				if call, ok := st.Val.(*ssa.Call); ok && core.CalleeKey(&call.Call) == "builtin.append" {
+					isAppend[b] = true
+				}
+			}
+		}
+	}
+	// blocks reachable from here within this iteration
+	reach := map[*ssa.BasicBlock]bool{}
+	stack := append([]*ssa.BasicBlock(nil), from.Succs...)
+	for len(stack) > 0 {
+		b := stack[len(stack)-1]
+		stack = stack[:len(stack)-1]
+		if reach[b] || in.topLoop[b] {
+			continue
+		}
+		reach[b] = true
+		stack = append(stack, b.Succs...)
+	}
+	any := false
+	for b := range reach {
+		if isAppend[b] {
+			any = true
+		}
+	}
+	switch {
+	case !any:
+		in.out.postEntryKnown = true // no append can follow
+	case len(from.Succs) > 0:
+		all := true
+		for _, s := range from.Succs {
+			if !mustPass(s, isAppend, in.topLoop) {
+				all = false
+			}
+		}
+		if all {
+			in.out.appendedOrder, in.out.postEntryKnown = true, true
+		}
 	}
 }
